@@ -111,6 +111,9 @@ func (reg *Reg) referrerListByAPI(ctx context.Context, r ref.Ref, config scheme.
 		if linkNext == nil {
 			break
 		}
+		if link != nil && link.String() == linkNext.String() {
+			return rl, fmt.Errorf("referrers Link header points to the current page: %s", link.String())
+		}
 		link = linkNext
 	}
 	return rl, nil
